@@ -3,6 +3,7 @@ package mon
 import (
 	"fmt"
 	"math/rand/v2"
+	"strings"
 
 	"github.com/xjslang/xjs/ast"
 	"github.com/xjslang/xjs/lexer"
@@ -68,8 +69,11 @@ var nestedSources = []string{"function q(){ { x } }", "{ { a } }", "f(function()
 // every nestEvery-th invocation additionally builds a second parser FROM THE SAME BUILDER and runs it to completion on
 // a nesting-heavy snippet while the outer parser is in the middle of its parse (what a macro-expanding plugin does),
 // then records the outer parser's answers again: one builder builds independent parsers, so they must be unchanged.
-func recordContexts(src string, m Mode, nestEvery int, coin *rand.Rand, drop bool) (obs []ctxObs, p *parser.Parser, nested int, err error) {
+func recordContexts(src string, m Mode, nestEvery int, coin *rand.Rand, drop bool, fnPlugin int) (obs []ctxObs, p *parser.Parser, nested int, err error) {
 	b := newBuilder(m)
+	if fnPlugin > 0 {
+		b = fnKeywordBuilder(m, fnPlugin == 2)
+	}
 	depth, calls := 0, 0
 	record := func(kind string, p *parser.Parser) {
 		if depth > 0 {
@@ -138,6 +142,115 @@ func recordContexts(src string, m Mode, nestEvery int, coin *rand.Rand, drop boo
 	}
 	_, err = p.ParseProgram()
 	return
+}
+
+// fnKeywordBuilder: a builder for sources in which a plugin spells the `function` keyword `fn`: a token interceptor
+// gives the word the built-in FUNCTION token type. With byHand the plugin also parses function declarations and function
+// expressions itself, the way the built-in functions do it: name, parameters, then
+// PushContext(FunctionContext); ParseBlockStatement(); PopContext().
+func fnKeywordBuilder(m Mode, byHand bool) *parser.Builder {
+	lb := lexer.NewBuilder()
+	lb.UseTokenInterceptor(func(l *lexer.Lexer, next func() token.Token) token.Token {
+		tok := next()
+		if tok.Type == token.IDENT && tok.Literal == "fn" {
+			tok.Type = token.FUNCTION
+		}
+		return tok
+	})
+	pb := parser.NewBuilder(lb)
+	if m.Tolerant {
+		pb.WithTolerantMode(true)
+	}
+	if m.Smart {
+		pb.WithSmartSemicolon(true)
+	}
+	if !byHand {
+		return pb
+	}
+	body := func(p *parser.Parser) *ast.BlockStatement {
+		p.PushContext(parser.FunctionContext)
+		b := p.ParseBlockStatement()
+		p.PopContext()
+		return b
+	}
+	pb.UseStatementInterceptor(func(p *parser.Parser, next func() ast.Statement) ast.Statement {
+		if p.CurrentToken.Type != token.FUNCTION {
+			return next()
+		}
+		stmt := &ast.FunctionDeclaration{Token: p.CurrentToken}
+		if !p.ExpectToken(token.IDENT) {
+			return nil
+		}
+		stmt.Name = &ast.Identifier{Token: p.CurrentToken, Value: p.CurrentToken.Literal}
+		if !p.ExpectToken(token.LPAREN) {
+			return nil
+		}
+		stmt.Parameters = p.ParseFunctionParameters()
+		if !p.ExpectToken(token.LBRACE) {
+			return nil
+		}
+		stmt.Body = body(p)
+		return stmt
+	})
+	pb.UseExpressionInterceptor(func(p *parser.Parser, next func() ast.Expression) ast.Expression {
+		if p.CurrentToken.Type != token.FUNCTION {
+			return next()
+		}
+		fe := &ast.FunctionExpression{Token: p.CurrentToken}
+		if p.PeekToken.Type == token.IDENT {
+			p.NextToken()
+			fe.Name = &ast.Identifier{Token: p.CurrentToken, Value: p.CurrentToken.Literal}
+		}
+		if !p.ExpectToken(token.LPAREN) {
+			return nil
+		}
+		fe.Parameters = p.ParseFunctionParameters()
+		if !p.ExpectToken(token.LBRACE) {
+			return nil
+		}
+		fe.Body = body(p)
+		return p.ParseRemainingExpression(fe)
+	})
+	return pb
+}
+
+// spellFunctionAsFn rewrites every `function` keyword of a rendered source as `fn` and returns the new text with the
+// ground-truth tokens at their new positions (nil if the source has no `function` keyword or uses the name fn).
+func spellFunctionAsFn(rd *gen.Rendered) (string, map[token.Position]*gen.Tok) {
+	var sb strings.Builder
+	last, n := 0, 0
+	newOff := make([]int, len(rd.Toks))
+	for i := range rd.Toks {
+		tk := &rd.Toks[i]
+		sb.WriteString(rd.Src[last:tk.Off])
+		newOff[i] = sb.Len()
+		last = tk.Off
+		if tk.Kind == gen.TKeyword && tk.Text == "function" {
+			sb.WriteString("fn")
+			last = tk.End
+			n++
+		} else if tk.Kind == gen.TIdent && tk.Text == "fn" {
+			return "", nil
+		}
+	}
+	if n == 0 {
+		return "", nil
+	}
+	sb.WriteString(rd.Src[last:])
+	src := sb.String()
+	byPos := map[token.Position]*gen.Tok{}
+	line, lineStart, k := 0, 0, 0
+	for i := 0; i <= len(src) && k < len(newOff); i++ {
+		for k < len(newOff) && newOff[k] == i {
+			byPos[token.Position{Line: line, Column: i - lineStart}] = &rd.Toks[k]
+			k++
+		}
+		if i < len(src) && src[i] == '\n' {
+			line++
+			lineStart = i + 1
+		}
+	}
+	return src, byPos
 }
 
 func finalState(t *fw.T, p *parser.Parser, src string, mode Mode, valid bool) {
@@ -240,9 +353,21 @@ func checkContexts(t *fw.T, r *rand.Rand, prog *gen.Node, stratum string) {
 			maxDepth = tk.Depth
 		}
 	}
+	// a third of the programs spell the `function` keyword the way a plugin defines it (`fn`, re-typed by a token
+	// interceptor); half of those plugins also parse the function constructs themselves through the public API
+	src, fnPlugin := rd.Src, 0
+	if r.IntN(3) == 0 {
+		if s2, bp := spellFunctionAsFn(rd); bp != nil {
+			src, byPos, fnPlugin = s2, bp, 1+r.IntN(2)
+			t.Count("programs_with_a_plugin_spelled_function_keyword", 1)
+			if fnPlugin == 2 {
+				t.Count("programs_whose_function_constructs_a_plugin_parses_by_hand", 1)
+			}
+		}
+	}
 	t.Feature("nesting-depths", fmt.Sprint(maxDepth))
 	modes := []Mode{{}, {Tolerant: true, Smart: false}}
-	if !hasLineLeadingBracket(rd.Src) {
+	if !hasLineLeadingBracket(src) {
 		// no '(' / '[' first on a line: smart-semicolon mode reads the text like the default mode, and the context
 		// queries answer the same questions
 		modes = append(modes, Mode{Smart: true, Tolerant: r.IntN(2) == 0})
@@ -251,7 +376,7 @@ func checkContexts(t *fw.T, r *rand.Rand, prog *gen.Node, stratum string) {
 		var obs []ctxObs
 		var p *parser.Parser
 		var err error
-		wit := func() map[string]any { return map[string]any{"source": rd.Src, "mode": m.String()} }
+		wit := func() map[string]any { return map[string]any{"source": src, "mode": m.String(), "fn_keyword_plugin": fnPlugin} }
 		nestEvery, nested := 0, 0
 		if r.IntN(2) == 0 {
 			nestEvery = 1 + r.IntN(5)
@@ -261,18 +386,18 @@ func checkContexts(t *fw.T, r *rand.Rand, prog *gen.Node, stratum string) {
 			coin = rand.New(rand.NewPCG(r.Uint64(), 16))
 			t.Count("parses_with_interceptors_that_use_the_public_parse_API", 1)
 		}
-		if !t.Guard("parse with recording interceptors", wit, func() { obs, p, nested, err = recordContexts(rd.Src, m, nestEvery, coin, drop) }) {
+		if !t.Guard("parse with recording interceptors", wit, func() { obs, p, nested, err = recordContexts(src, m, nestEvery, coin, drop, fnPlugin) }) {
 			return
 		}
 		t.Count("nested_parses_by_a_second_parser_of_the_same_builder", nested)
 		if err != nil {
-			t.Inconclusive("generated program not accepted (C02's business)", rd.Src)
+			t.Inconclusive("generated program not accepted (C02's business)", src)
 			return
 		}
 		for _, o := range obs {
 			gt := byPos[o.start]
 			if gt == nil {
-				t.Violate("current-token", o.kind, fmt.Sprintf("%s interceptor ran with a current token at %v that is not a token start of the source: %s", o.kind, o.start, gen.Describe(rd.Src)), wit())
+				t.Violate("current-token", o.kind, fmt.Sprintf("%s interceptor ran with a current token at %v that is not a token start of the source: %s", o.kind, o.start, gen.Describe(src)), wit())
 				return
 			}
 			t.Count("interceptor_invocations_checked", 1)
@@ -281,7 +406,7 @@ func checkContexts(t *fw.T, r *rand.Rand, prog *gen.Node, stratum string) {
 			if o.inFn != gt.InFunc {
 				w := wit()
 				w["at"] = where
-				t.Violate("is-in-function", fmt.Sprintf("%s says %v", o.kind, o.inFn), fmt.Sprintf("%s: IsInFunction()=%v but the token is inside a function body=%v: %s", where, o.inFn, gt.InFunc, gen.Describe(rd.Src)), w)
+				t.Violate("is-in-function", fmt.Sprintf("%s says %v", o.kind, o.inFn), fmt.Sprintf("%s: IsInFunction()=%v but the token is inside a function body=%v: %s", where, o.inFn, gt.InFunc, gen.Describe(src)), w)
 				return
 			}
 			bad := ""
@@ -300,7 +425,7 @@ func checkContexts(t *fw.T, r *rand.Rand, prog *gen.Node, stratum string) {
 			if bad != "" {
 				w := wit()
 				w["at"] = where
-				t.Violate("current-context", fmt.Sprintf("%s: truth=%d got=%s", o.kind, gt.Ctx, ctxName(o.ctx)), where+": "+bad+": "+gen.Describe(rd.Src), w)
+				t.Violate("current-context", fmt.Sprintf("%s: truth=%d got=%s", o.kind, gt.Ctx, ctxName(o.ctx)), where+": "+bad+": "+gen.Describe(src), w)
 				return
 			}
 			if o.stack != nil {
@@ -317,11 +442,11 @@ func checkContexts(t *fw.T, r *rand.Rand, prog *gen.Node, stratum string) {
 				}
 			}
 		}
-		finalState(t, p, rd.Src, m, true)
+		finalState(t, p, src, m, true)
 	}
-	t.Distinct(rd.Src)
-	if t.WantSample() && len(rd.Src) < 300 {
-		t.Sample(map[string]any{"stratum": stratum, "source": rd.Src, "max_nesting": maxDepth})
+	t.Distinct(src)
+	if t.WantSample() && len(src) < 300 {
+		t.Sample(map[string]any{"stratum": stratum, "source": src, "max_nesting": maxDepth})
 	}
 }
 
